@@ -92,6 +92,9 @@ def inject(rng, segs, d, rows, force_kind=None, force_i=None):
                            'not_used_ele', 'too_many_elements', 'unknown_segment', 'missing_required_segment', 'missing_required_loop', 'syntax_note', 'syntax_note', 'wrong_format'])
         if force_kind is not None:
             kind = force_kind
+        only_first = kind == 'bad_code_01'
+        if only_first:
+            kind = 'bad_code'
         kids = node.children
         if sid in ('HL', 'LX', 'BHT') and kind not in ('too_many_elements',) and not (sid == 'BHT' and kind in ('bad_time', 'bad_date')):
             continue            # numbering / hierarchy / transaction-type elements decide how OTHER segments are matched
@@ -108,7 +111,10 @@ def inject(rng, segs, d, rows, force_kind=None, force_i=None):
                     cands.append((k, parts[k + 1] + 'X' * (mx - len(parts[k + 1]) + 1), ['5']))
                 if kind == 'too_short' and present and c.usage != 'N' and not codes and not c.external_codes and ty == 'AN' and mn > 1:
                     cands.append((k, 'X' * (mn - 1), ['4']))
-                if kind == 'bad_code' and present and codes and k > 0 and c.usage != 'N' and c.data_ele not in ('1250',) and not (sid == 'ENT' and k == 1):
+                # element 01 selects the map node (segment_if.is_match) when it is a required ID element with a code list: a wrong
+                # value there is another fault kind (segment not found); every other coded element 01 is an ordinary code fault
+                matches_on_01 = k == 0 and ty == 'ID' and c.usage == 'R'
+                if kind == 'bad_code' and present and codes and not matches_on_01 and c.usage != 'N' and c.data_ele not in ('1250',) and not (sid == 'ENT' and k == 1):
                     bad = 'Z' * max(mn, 1)
                     if bad not in codes and mn <= len(bad) <= mx:
                         cands.append((k, bad, ['7']))
@@ -123,6 +129,8 @@ def inject(rng, segs, d, rows, force_kind=None, force_i=None):
                     cands.append((k, '', ['1']))
                 if kind == 'not_used_ele' and c.usage == 'N' and not present and k < len(parts) + 3:
                     cands.append((k, 'X', ['10', 'I10']))
+            if only_first:
+                cands = [x for x in cands if x[0] == 0]
             if not cands:
                 continue
             k, v, codes = rng.choice(cands)
@@ -319,6 +327,11 @@ def run(ctx, report):
                and any((not c.is_composite()) and walk_gen.de_of(c)['data_type'] in ('TM', 'DT', 'D8') for c in r[2].children)]
         rng.shuffle(tms)
         plan += [(rng.choice(['bad_time', 'bad_date']), i) for i in tms[:(6 if thorough else 3)]]
+        firsts = [i for i, r in enumerate(rows) if r[2] is not None and r[1] not in docgen.ENVELOPE and r[1] not in ('HL', 'LX', 'BHT') and r[2].children
+                  and (not r[2].children[0].is_composite()) and [x for x in r[2].children[0].valid_codes if x]
+                  and not (walk_gen.de_of(r[2].children[0])['data_type'] == 'ID' and r[2].children[0].usage == 'R')]
+        rng.shuffle(firsts)
+        plan += [('bad_code_01', i) for i in firsts[:(4 if thorough else 3)]]
         dtps = [i for i, r in enumerate(rows) if r[1] == 'DTP' and r[2] is not None]
         rng.shuffle(dtps)
         plan += [('wrong_format', i) for i in dtps[:(6 if thorough else 3)]]
